@@ -37,12 +37,14 @@ class Module:
         normalise.fstrings_to_format(self.tree)
         normalise.empty_displays(self.tree)
         normalise.attr_builtins(self.tree)
+        normalise.filter_loops(self.tree)
         normalise.flatten_else(self.tree)
         normalise.merge_nested_ifs(self.tree)
         self.funcs = {}  # qualname -> FunctionDef
         self.classes = {}  # qualname -> ClassDef
         self._index(self.tree, "", None)
         self.attrs_recovered = normalise.recover_private_attrs(self)
+        self.globals_propagated = normalise.propagate_new_globals(self, normalise.reference_globals().get(relpath))
         known = normalise.reference_functions().get(relpath)
         self.helpers_inlined = normalise.inline_new_helpers(self, known)
         self.helpers_inlined += normalise.nested_def_to_lambda(self, known)
@@ -56,6 +58,14 @@ class Module:
         self.locals_propagated = 0
         if ref_locals is not None:
             ref_tests = normalise.reference_tests().get(relpath) or {}
+            # first the pure aliases / hoisted expressions only, so that definitions and guards regain their pinned text
+            # and renamed locals with effects (`x = self.m()`) can still be matched by their definition signature
+            pre = 0
+            for q, fn in self.funcs.items():
+                pre += normalise.propagate_new_locals(fn, set((ref_locals.get(q) or {}).values()), pure_only=True)
+            if pre:
+                self.locals_propagated += pre
+                self.locals_recovered += localnames.recover(self)
             for q, fn in self.funcs.items():
                 names = set((ref_locals.get(q) or {}).values())
                 k = normalise.sink_return(fn, names)
@@ -68,6 +78,7 @@ class Module:
                     k += normalise.split_or_guards(fn, rt)
                 self.locals_propagated += k
             if self.locals_propagated:
+                normalise.filter_loops(self.tree)
                 normalise.flatten_else(self.tree)
                 normalise.merge_nested_ifs(self.tree)
                 # definitions may have regained their pinned form: match the remaining locals once more
